@@ -1,5 +1,6 @@
 import Replicon.Proofs.Events
 import Replicon.Proofs.JointLocal
+import Replicon.Proofs.JumpEvents
 /-
 C13 — Singleplayer and listen-server logic sees each local event exactly once.
 
@@ -83,6 +84,13 @@ the local server, in emission order — each once, none other. -/
 theorem C13_history_local (ops : List Joint.Op) :
     (Joint.run {} ops).1.localLog ++ Joint.localIds (Joint.run {} ops).1.pending = Joint.emittedLocal ops := by
   have := Joint.local_log ops {}
+  simpa [Joint.localIds] using this
+
+/-- `C13_history_local` for histories in which the tick also advances by more than one at once
+(`Joint.OpJ`, `Proofs/Jump.lean`, `Proofs/JumpEvents.lean`). -/
+theorem C13_history_local_with_tick_jumps (ops : List Joint.OpJ) :
+    (Joint.runJ {} ops).1.localLog ++ Joint.localIds (Joint.runJ {} ops).1.pending = Joint.emittedLocalJ ops := by
+  have := Joint.local_logJ ops {}
   simpa [Joint.localIds] using this
 
 /-- … so once a frame has run after the last emission, the local log is exactly that sequence -/
